@@ -19,6 +19,10 @@ type Taint struct {
 	maxDepth int
 	// Follow decides whether a static callee's body is analysed.
 	Follow func(*ssa.Function) bool
+	// CallSites (optional) lists the call sites of a function; used to carry a tainted result out of
+	// a function in which the taint originated.
+	CallSites func(*ssa.Function) []ssa.CallInstruction
+	origin    map[*ssa.Function]bool
 	work   []ssa.Value
 	// stores that received a tainted value
 	Sinks map[ssa.Instruction]bool
@@ -76,6 +80,18 @@ func (t *Taint) Add(v ssa.Value) {
 
 func (t *Taint) Has(v ssa.Value) bool { return t.Vals[v] }
 
+// AddSource is Add for an original source: the function that contains it is remembered, so that its
+// result carries the taint to every call site (see CallSites).
+func (t *Taint) AddSource(v ssa.Value) {
+	if in, ok := v.(ssa.Instruction); ok && in.Parent() != nil {
+		if t.origin == nil {
+			t.origin = map[*ssa.Function]bool{}
+		}
+		t.origin[in.Parent()] = true
+	}
+	t.Add(v)
+}
+
 // taintContainer marks the object an address points into.
 func (t *Taint) taintAddr(addr ssa.Value) {
 	// taint the address value itself and its root container so later loads see it
@@ -128,6 +144,29 @@ func (t *Taint) visit(v ssa.Value, r ssa.Instruction) {
 		if x.Key == v || x.Value == v {
 			t.Sinks[x] = true
 			t.Add(x.Map)
+			// a map parameter updated in place is the caller's map: the actual arguments carry the taint
+			if prm, ok := x.Map.(*ssa.Parameter); ok {
+				fn := prm.Parent()
+				idx := -1
+				for i, q := range fn.Params {
+					if q == prm {
+						idx = i
+					}
+				}
+				sites := append([]*ssa.Call{}, t.callersOf[fn]...)
+				if t.CallSites != nil {
+					for _, c := range t.CallSites(fn) {
+						if cc, ok := c.(*ssa.Call); ok {
+							sites = append(sites, cc)
+						}
+					}
+				}
+				for _, c := range sites {
+					if idx >= 0 && idx < len(c.Call.Args) {
+						t.Add(c.Call.Args[idx])
+					}
+				}
+			}
 			// the map value came from a load of a field: taint that address too
 			if u, ok := x.Map.(*ssa.UnOp); ok && u.Op == token.MUL {
 				t.taintAddr(u.X)
@@ -149,6 +188,15 @@ func (t *Taint) visit(v ssa.Value, r ssa.Instruction) {
 			t.retTainted[fn] = true
 			for _, c := range t.callersOf[fn] {
 				t.Add(c)
+			}
+			// a source inside a helper: its result is tainted at every call site, also those the
+			// propagation never entered through
+			if t.CallSites != nil && t.origin[fn] {
+				for _, c := range t.CallSites(fn) {
+					if v, ok := c.(ssa.Value); ok {
+						t.Add(v)
+					}
+				}
 			}
 		}
 	case *ssa.MakeClosure:
